@@ -34,7 +34,7 @@ def embedded_table(mg, mp, mask, N):
     return g, p
 
 
-def h_definition(env, N, mask, L, kind='list'):
+def h_definition(env, N, mask, L, kind='list', dtype='int64'):
     """transform_by (masked or not) equals the homomorphic extension of the listed images, for ANY table"""
     M = Mods(env)
     n = N if mask is None else sum(mask)
@@ -44,9 +44,9 @@ def h_definition(env, N, mask, L, kind='list'):
     gs = env.bits('gs', (L, 2 * N))
     ps = env.phases('ps', (L,))
     if kind == 'list':
-        obj = M.pa.PauliList(gs.copy(), ps.copy())
+        obj = M.pa.PauliList(as_dtype(env, gs, dtype), as_dtype(env, ps, dtype))
     elif kind == 'pauli':
-        obj = M.pa.Pauli(gs[0].copy(), ps[0])
+        obj = M.pa.Pauli(as_dtype(env, gs[0], dtype), ps[0])
     else:
         obj = M.pa.PauliPolynomial(gs.copy(), ps.copy())
         cre = env.ints('c_re', (L,), 0, 3)
@@ -210,6 +210,9 @@ def jobs(tier):
         for m in mks:
             J.append(dict(harness=('c03', 'h_definition'), params=dict(N=N, mask=m, L=2, kind='list')))
             J.append(dict(harness=('c03', 'h_definition'), params=dict(N=N, mask=m, L=1, kind='pauli')))
+            if N <= 2:
+                J.append(dict(harness=('c03', 'h_definition'), params=dict(N=N, mask=m, L=2, kind='list', dtype='uint8')))
+                J.append(dict(harness=('c03', 'h_definition'), params=dict(N=N, mask=m, L=1, kind='pauli', dtype='uint8')))
             if N <= 3:
                 J.append(dict(harness=('c03', 'h_definition'), params=dict(N=N, mask=m, L=2, kind='poly')))
             if m is not None:
